@@ -13,7 +13,8 @@ EXPLANATION = (
     "(R09.6) linear use of the fetched source track in merge_owned (never destroyed on a normal path); (R09.7) "
     "shard-index discipline and merge routing; (R09.8) predicate senses in the worker's Lookup / FindBaked arms, whole "
     "iteration in clear / shard_stats."
-    ' (R09.9) lookups and usable-track scans are answered by the shard workers, one command and one answer per worker; (R09.10) who-may-change-membership: only add_track / add insert into, fetch_tracks removes from and clear empties a shard map (a worker arm that takes a track out of its shard and puts it back is reported); R09.4 also requires that fetch_tracks examines every requested id (the removal loop ranges over the whole `tracks` parameter through no bounding adaptor).')
+    ' (R09.9) lookups and usable-track scans are answered by the shard workers, one command and one answer per worker; (R09.10) who-may-change-membership: only add_track / add insert into, fetch_tracks removes from and clear empties a shard map (a worker arm that takes a track out of its shard and puts it back is reported); R09.4 also requires that fetch_tracks examines every requested id (the removal loop ranges over the whole `tracks` parameter through no bounding adaptor).'
+    ' (R09.11) no Merge / Lookup / Distances arm can end a shard worker; R09.8 also requires that clear / shard_stats visit every shard (no short-circuiting adaptor); (R09.12) the restore-on-error clause of C11 for Track::merge / add_observation (a failed merge leaves the destination as it was).')
 NOT_DECIDED = ["refinement against a sequential map model for arbitrary user callbacks",
                "behaviour when a worker thread panics"]
 ASSUMPTIONS = ["std HashMap / crossbeam channels behave as documented", "panics out of scope",
